@@ -484,7 +484,7 @@ where
 /// In-process strata are pure functions of the case as far as the harness is concerned, so the difference comes from
 /// the code under test: its result depends on what it was given before (a cache, a buffer that survives an error).
 /// That is reported as a violation whose replay re-runs this stratum from its seed up to the failing case
-/// (`stratum-prefix`), which reproduces it. Strata that talk to another process ("e2e-", "cli-", "py-" ...) are
+/// (`stratum-prefix`), which reproduces it. Strata that talk to another process or through sockets ("e2e-", "cli-", "py-", "tcp-", "udp-") are
 /// subject to scheduling; there such a failure is counted under `excluded` and not judged.
 pub fn run_prop_shrink<S>(ctx: &Ctx, stratum: &str, cases: u32, max_shrink_iters: u32, strat: S, f: impl Fn(&S::Value) -> Check)
 where
@@ -498,7 +498,7 @@ where
         Some(_) => (std::env::var("VERIF_MAX_CASES").ok().and_then(|x| x.parse().ok()).unwrap_or(cases), 0),
         None => (cases, max_shrink_iters),
     };
-    let external = ["e2e-", "cli-", "py-"].iter().any(|p| stratum.starts_with(p));
+    let external = ["e2e-", "cli-", "py-", "tcp-", "udp-"].iter().any(|p| stratum.starts_with(p));
     let algo = match std::env::var("VERIF_RNG").ok().as_deref() {
         Some("xorshift") => RngAlgorithm::XorShift,
         _ => RngAlgorithm::ChaCha,
